@@ -5,8 +5,10 @@ import (
 	"bytes"
 	"errors"
 	"fmt"
+	"hop.computer/hop/core"
 	"io"
 	"net"
+	"regexp"
 	"runtime"
 	"strconv"
 	"strings"
@@ -583,6 +585,23 @@ func decode(what string, b []byte) string {
 		}
 		p.addr = b[4 : len(b)-r.Len()]
 		return p.String() + " " + rest(r)
+	case "ti":
+		// the text, to decide whether it is one the model covers (the real reader runs in any case)
+		text, _, terr := common.ReadString(bytes.NewReader(b))
+		u, err := authgrants.ReadTargetInfo(r)
+		if terr != nil {
+			if err == nil {
+				return "accepted-a-short-string"
+			}
+			return "err"
+		}
+		if !tiTextRe.MatchString(text) {
+			return "unmodelled"
+		}
+		if err != nil {
+			return "err-on-a-modelled-text"
+		}
+		return HexOrDash([]byte(u.User)) + " " + HexOrDash([]byte(u.Host)) + " " + HexOrDash([]byte(u.Port)) + " " + rest(r)
 	case "ua":
 		return uaDecode(b)
 	case "xst":
@@ -819,6 +838,13 @@ func allocClass(what string, f func() string) string {
 	return r + " " + cls
 }
 
+// the texts and values Model/TargetInfo.lean covers (`unmodelled` otherwise, on both sides)
+var (
+	tiHostRe = regexp.MustCompile(`^[A-Za-z0-9.\-]+$`)
+	tiPortRe = regexp.MustCompile(`^[0-9]{0,5}$`)
+	tiTextRe = regexp.MustCompile(`^hop://(?:(?:[A-Za-z0-9\-_.~$&+,;=!'()*]|%[0-9A-Fa-f]{2})*@)?[A-Za-z0-9.\-]+(?::[0-9]{1,5})?$`)
+)
+
 func run(in *bufio.Scanner, out *bufio.Writer) {
 	for in.Scan() {
 		f := strings.Fields(in.Text())
@@ -866,6 +892,24 @@ func runOp(f []string) string {
 		return Guard(func() string { return decode(what, b) })
 	}
 	switch op {
+	case "ti-enc":
+		if len(a) == 3 {
+			u, ok1 := Unhex(a[0])
+			h, ok2 := Unhex(a[1])
+			p, ok3 := Unhex(a[2])
+			if ok1 && ok2 && ok3 {
+				if !tiHostRe.Match(h) || !tiPortRe.Match(p) {
+					return "unmodelled"
+				}
+				return Guard(func() string {
+					var buf bytes.Buffer
+					if err := authgrants.WriteTargetInfo(core.URL{User: string(u), Host: string(h), Port: string(p)}, &buf); err != nil {
+						return "err"
+					}
+					return HexOrDash(buf.Bytes())
+				})
+			}
+		}
 	case "xst-enc":
 		if len(a) == 1 && a[0] == "conf" {
 			return xstEncode(true, nil)
